@@ -67,6 +67,19 @@ def run(chk):
         progs.append((g.program(), evallib.gen_draws(rng, 16)))
         for f in g.features:
             feats[f] = feats.get(f, 0) + 1
+    # objects owning qubits (fields, registers, inherited fields), created, used, destroyed, their indices reused: every reset the
+    # run performs - also the ones at release - must be in the listing for the replay to end in the simulator's state
+    import qobjgen
+    for _ in range(600 if chk.thorough else 40):
+        qp = qobjgen.QObjProgram(rng, rng.choice([0.1, 0.9]))
+        progs.append((qp.text, [qp.draw] * 400))
+        feats["object-qubits"] = feats.get("object-qubits", 0) + 1
+    for _ in range(200 if chk.thorough else 15):
+        flip = rng.random() < 0.5
+        progs.append(("class Anc { public qubit q; public qubit[2] r; public constructor() -> Anc = default; }\n"
+                      "function main() -> void { qubit keep; Anc a = new Anc(); %s%s cx(a.q, keep); destroy a; %s }"
+                      % ("x(a.q); " if flip else "h(a.q); ", rng.choice(["", "x(a.r[1]); ", "h(a.r[0]); cx(a.r[0], a.r[1]); "]),
+                         rng.choice(["", "qubit later; x(later);", "bit b = measure keep; echo(b);"])), evallib.gen_draws(rng, 16)))
     lines, impl, model, incident = evallib.run_programs(progs)
     dis = bad = None
     verdicts = {}
@@ -76,8 +89,15 @@ def run(chk):
         b = model[i] if i < len(model) else "<missing>"
         k = a.split()[0] + (" " + a.split()[1] if a.startswith("err") else "")
         verdicts[k] = verdicts.get(k, 0) + 1
-        if a.startswith(("err Semantic", "err Parse", "err Lexical")) or b.startswith("unsupported"):
+        if a.startswith(("err Semantic", "err Parse", "err Lexical")):
             chk.count(None)
+            continue
+        if b.startswith("unsupported"):
+            # class programs have no Lean evaluator reference: the replay oracle still applies to what the real pipeline emitted
+            chk.count(src if a.startswith("ok ") else None)
+            why = judge(a)
+            if why and bad is None:
+                bad = (src, ds, why, a)
             continue
         d = evallib.split_result(a)
         nops = d.get("qasm_text", "").count("\n") - 4 if a.startswith("ok ") else 0
